@@ -51,7 +51,7 @@ def lambda_text(call, marker, multiline):
     return core
 
 
-def render(lay, idx):
+def render(lay, idx, moff=0):
     """-> (source of function q_idx, list of one-line defs, want lambda texts)"""
     calls = lay["calls"]
     defs = []
@@ -59,9 +59,15 @@ def render(lay, idx):
     pre_stmts = []
     any_dot = any(c["brk"] in ("dot", "all") for c in calls) or lay["wrap"] in ("comp", "cond") or \
         lay["extra"] != "none"
-    pieces = ["ds"]
+    split = lay.get("split", 0)
+    short = lay.get("recv", "ds") == "short"
+    if short:
+        pre_stmts += ["a = ds", "b = ds"]
+    pieces = ["a" if short else "ds"]
     for k, c in enumerate(calls):
-        marker = 100 * (k + 1) + 1
+        if split and k == split:
+            pieces.append(", " + ("b" if short else "ds"))
+        marker = 100 * (k + 1) + 1 + moff
         p = c["p"]
         core = lambda_text(c, marker, False)
         want.append(f"lambda {p}: {core}")
@@ -98,6 +104,8 @@ def render(lay, idx):
         out.append(")")
         pieces.append("".join(out))
     chain = "".join(pieces)
+    if split:
+        chain = f"second({chain})"
     if lay["extra"] in ("before_same", "before_other"):
         ep = calls[0]["p"] if lay["extra"] == "before_same" else "P"
         chain = f"second(keep(lambda {ep}: {ep} + 99), {chain})"
@@ -110,7 +118,7 @@ def render(lay, idx):
         expr = f"[{expr} for _ in range(1)][0]"
     elif lay["wrap"] == "cond":
         expr = f"({expr} if ds is not None else None)"
-    pre = "a = 1; " if lay["pre"] else ""
+    pre = "zz = 1; " if lay["pre"] else ""
     stmt = "".join(ps + "\n" for ps in pre_stmts) + f"{pre}q = {expr}"
 
     def indent(text, n):
@@ -188,7 +196,7 @@ def run(prop, tier):
         def feat(lay):
             return (len(lay["calls"]), lay["wrap"], lay["extra"], lay["pre"], lay["kind"],
                     tuple(sorted({c["brk"] for c in lay["calls"]})), tuple(sorted({c["deco"] for c in lay["calls"]})),
-                    len({(c["op"], c["p"]) for c in lay["calls"]}))
+                    len({(c["op"], c["p"]) for c in lay["calls"]}), lay["split"], lay["recv"])
         if name != "line3":          # the one-line family is small and is replayed completely
             got = common.subsample_stratified(got, plan["keep"] if sim is None else plan["rand"], salt=name, key=feat)
         rep.extra.setdefault("families", {})[name] = {"generated": total, "replayed": len(got)}
@@ -201,12 +209,12 @@ def run(prop, tier):
     moddir = tlcrun.fresh_dir(common.outdir(prop, "mod"))
     CHUNK = 200
     recs = []
-    for c0 in range(0, len(lays), CHUNK):
-        name = f"c03_layouts_{c0 // CHUNK}"
+
+    def run_chunk(name, idxs, moff, record=True):
         text = PRELUDE + "\n\n"
         meta = {}
-        for i in range(c0, min(c0 + CHUNK, len(lays))):
-            src, defs, want = render(lays[i], i)
+        for i in idxs:
+            src, defs, want = render(lays[i], i, moff)
             try:
                 ast.parse(src)
             except SyntaxError as e:
@@ -228,10 +236,26 @@ def run(prop, tier):
                 log.append({"res": "Harness:" + type(e).__name__, "lam": codec.T("absent"), "msg": str(e)[:80]})
             n = len(want)
             obs = log[:n] + [{"res": "not-reached", "lam": codec.T("absent")}] * (n - len(log))
-            recs.append({"id": i, "lay": lays[i], "lines": call_site_lines(src, lays[i]),
+            if not record:
+                continue
+            recs.append({"id": len(recs), "lay": lays[i], "lines": call_site_lines(src, lays[i]),
                          "want": [codec.enc(ast.parse(w).body[0].value) for w in want],
                          "obs": [{"res": o["res"], "lam": o["lam"]} for o in obs], "source": src,
                          "msgs": [o.get("msg", "") for o in obs]})
+
+    for c0 in range(0, len(lays), CHUNK):
+        run_chunk(f"c03_layouts_{c0 // CHUNK}", range(c0, min(c0 + CHUNK, len(lays))), 0)
+    # the same files EDITED and executed again in this process (an interactive session, importlib.reload): the new
+    # text has other constants in the lambdas; what is recovered must be the lambda that is passed NOW.  (Lambda
+    # layouts only: nothing else in these files makes the library look at the file again.)
+    lam_idx = [i for i in range(len(lays)) if lays[i]["kind"] == "lambda"][:600]
+    nre = 0
+    for c0 in range(0, len(lam_idx), CHUNK):
+        idxs = lam_idx[c0:c0 + CHUNK]
+        run_chunk(f"c03_edited_{c0 // CHUNK}", idxs, 0, record=False)
+        run_chunk(f"c03_edited_{c0 // CHUNK}", idxs, 1000)
+        nre += len(idxs)
+    rep.extra.setdefault("families", {})["edited and re-executed"] = {"replayed": nre}
     vrecs = [{k: r[k] for k in ("id", "lay", "lines", "want", "obs")} for r in recs]
     verdicts, vst = common.validate(prop, "source", "TraceSource", vrecs, per_shard=500)
     rep.add_tlc(vst)
@@ -259,7 +283,7 @@ def run(prop, tier):
                 "inside the body, before the closing parenthesis, all), string literal with brackets and the word "
                 "lambda, trailing comment, enclosing construct (function, if, method, comprehension, conditional "
                 "expression, nested def, with), a second lambda in the statement with the same / another parameter "
-                "name, a preceding statement on the line, one-line defs passed by name; rendered to real modules and "
+                "name, a preceding statement on the line, one-line defs passed by name, the calls split into two separate chains in one statement, one-letter receiver variables; rendered to real modules and "
                 "run; TLC decides WrongLambda (never allowed) and SupportedNotRecovered; non-trivial = supported layout "
                 "recovered without error")
     rep.assumptions = ["Supported(layout) as fixed in DESIGN.md A.3, evaluated on the call-site lines of the rendered source",
